@@ -12,6 +12,7 @@ import LyModel.Iff.Drv
 import LyModel.XPath.Drv
 import LyModel.YangStr.Drv
 import LyModel.LyHt.Drv
+import LyModel.Sib.Drv
 /-! Dispatch table of the line-protocol driver: one handler per component. -/
 namespace LyModel.Drv
 
@@ -31,6 +32,7 @@ def dispatch (comp op : String) (args : List String) : String :=
   | "xpath" => XPath.Drv.handle op args
   | "yangstr" => YangStr.Drv.handle op args
   | "ht" => LyHt.Drv.handle op args
+  | "sib" => Sib.Drv.handle op args
   | _ => "err NoSuchComponent"
 
 end LyModel.Drv
